@@ -17,10 +17,33 @@ def gateCommand (args : List String) : Option String :=
     | _, _, _ => some "BADREQ"
   | _ => some "BADREQ"
 
+def unhexNats (s : String) : List Nat :=
+  if s == "-" then [] else
+  let rec go : List Char → List Nat
+    | a :: b :: rest => ((Hex.hexVal a).getD 0 * 16 + (Hex.hexVal b).getD 0) :: go rest
+    | _ => []
+  go s.toList
+
+/-- "HEXCHECK <hex(file bytes)> <hex(image)>" : the independent reader on the file, compared with
+    the image: MATCH | MISMATCH <n cells> | MALFORMED | DUPLICATE -/
+def hexCheckCommand (args : List String) : Option String :=
+  match args with
+  | [file, img] =>
+    let f := (unhexNats file).map Char.ofNat
+    let image := unhexNats img
+    match Hex.readCells f with
+    | none => some "MALFORMED"
+    | some cells =>
+      if cells == Hex.imageCells image then some "MATCH"
+      else if cells.length ≤ 4096 ∧ !Hex.noDup (cells.map (·.1)) then some "DUPLICATE"
+      else some s!"MISMATCH {cells.length}"
+  | _ => some "BADREQ"
+
 def specCommand (kind : String) (args : List String) : Option String :=
   match kind with
   | "ENC" => encCommand args
   | "GATE" => gateCommand args
+  | "HEXCHECK" => hexCheckCommand args
   | _ => none
 
 end Avra.Spec
